@@ -1,5 +1,6 @@
 import Driver.Codec
 import Driver.Solve
+import Driver.Text
 open Ezpz Ezpz.Driver
 
 /-- Discrete signature and float payload of one kernel evaluation (for the stability probe). -/
@@ -60,6 +61,7 @@ def step (line : String) : String :=
   match line.trimAscii.toString.splitOn " " with
   | "K" :: ts => runKernel ts
   | "S" :: ts => runSolve ts
+  | "T" :: ts => runText ts
   | _ => "bad-op"
 
 partial def loop (h : IO.FS.Stream) (out : IO.FS.Stream) : IO Unit := do
